@@ -152,7 +152,7 @@ def make_call(rng, entry):
         if r == 1.0:
             call['l_out_prefix'], call['r_out_prefix'] = rng.choice([('left.', 'right.'), ('A_', 'B_'), ('x', 'xx')])
     if r < 0.25:
-        call['l_out_prefix'], call['r_out_prefix'] = rng.choice([('left.', 'right.'), ('A_', 'B_'), ('', 'r_'), ('x', 'xx'), ('l_', 'l_r_')])
+        call['l_out_prefix'], call['r_out_prefix'] = rng.choice([('left.', 'right.'), ('A_', 'B_'), ('', 'r_'), ('x', 'xx'), ('l_', 'l_r_'), ('l%%', 'r%s_'), ('50%_', '{}_'), ('%(l)s', '{0}')])
     elif r < 0.35:
         call['l_out_prefix'] = call['r_out_prefix'] = rng.choice(['', 't_'])   # names are disjoint
     if rng.random() < 0.15 and lj == 'ljoin':
